@@ -163,3 +163,19 @@ impl<'b, C> minicbor::Decode<'b, C> for NilOpt {
 impl<C> minicbor::CborLen<C> for NilOpt {
     fn cbor_len(&self, ctx: &mut C) -> usize { match self.0 { Some(x) => x.cbor_len(ctx), None => 1 } }
 }
+
+/// A custom codec module WITHOUT nil functions (`#[cbor(with = "crate::rt::plainopt")]`, no `has_nil`) for
+/// `Option<u16>` fields: the derive macros must fall back on `Option::is_none` / `Some(None)` because the field
+/// type is syntactically an `Option` - however that `Option` is spelled.
+pub mod plainopt {
+    use minicbor::{Encoder, Decoder, CborLen, encode::{self as enc, Write}, decode::Error as DErr, data::Type};
+    pub fn encode<C, W: Write>(v: &Option<u16>, e: &mut Encoder<W>, _: &mut C) -> Result<(), enc::Error<W::Error>> {
+        match v { Some(x) => { e.u16(*x)?; } None => { e.null()?; } }
+        Ok(())
+    }
+    pub fn decode<'b, C>(d: &mut Decoder<'b>, _: &mut C) -> Result<Option<u16>, DErr> {
+        if d.datatype()? == Type::Null { d.skip()?; return Ok(None) }
+        d.u16().map(Some)
+    }
+    pub fn cbor_len<C>(v: &Option<u16>, c: &mut C) -> usize { match v { Some(x) => x.cbor_len(c), None => 1 } }
+}
